@@ -1723,6 +1723,10 @@ def main():
     rs2coq_enf2.main(os.path.dirname(dst))
     import rs2coq_ini            # part 12: config.rs + the loading half of default_model.rs + to_text -> Gen/IniGen.v
     rs2coq_ini.main(os.path.dirname(dst))
+    import rs2coq_fmap           # part 16: function_map.rs regex_match, key_match2..5, key_get2/3 with the run-time Regex::new -> Gen/FmapGen.v
+    rs2coq_fmap.main(os.path.dirname(dst))
+    import rs2coq_fsave          # part 17: file / string adapters, write side + file reading -> Gen/FsaveGen.v
+    rs2coq_fsave.main(os.path.dirname(dst))
     import rs2coq_rm             # part 11: DefaultRoleManager + bounded BFS -> Gen/RoleManagerGen.v
     rs2coq_rm.main(os.path.dirname(dst))
 
